@@ -156,6 +156,21 @@ func dsKey[K kad.Key[K]](k K, prefixBits int) ds.Key {
 	return ds.NewKey(b.String())
 }
 
+// queryPrefix returns the datastore prefix to query for the keys starting with
+// prefix, and whether the results have to be filtered against prefix (the
+// datastore prefix is shorter than prefix then). A prefix as long as a whole
+// identifier designates a single entry, and dsKey would return that entry's own
+// datastore key - which a datastore prefix query never returns, it only returns
+// what is filed *under* the prefix. Such a prefix is queried one bit shorter.
+func (s *keystore) queryPrefix(prefix bitstr.Key) (string, bool) {
+	filter := prefix.BitLen() > s.prefixBits
+	if prefix.BitLen() >= keyspace.KeyLen {
+		filter = true
+		prefix = prefix[:keyspace.KeyLen-1]
+	}
+	return dsKey(prefix, s.prefixBits).String(), filter
+}
+
 // decodeKey reconstructs a 256-bit binary key from a hierarchical datastore key string.
 //
 // This function reverses the process of dsKey, converting a datastore key back into
@@ -335,9 +350,7 @@ func (s *keystore) put(ctx context.Context, keys []mh.Multihash) ([]mh.Multihash
 // prefix.
 func (s *keystore) get(ctx context.Context, prefix bitstr.Key) ([]mh.Multihash, error) {
 	out := make([]mh.Multihash, 0)
-	longPrefix := prefix.BitLen() > s.prefixBits
-
-	dsk := dsKey(prefix, s.prefixBits).String()
+	dsk, longPrefix := s.queryPrefix(prefix)
 	q := query.Query{Prefix: dsk}
 	for r, err := range ds.QueryIter(ctx, s.ds, q) {
 		if err != nil {
@@ -367,8 +380,7 @@ func (s *keystore) get(ctx context.Context, prefix bitstr.Key) ([]mh.Multihash, 
 // limit matches are found, so it never iterates a large region just to learn it
 // is large; a non-positive limit counts every match.
 func (s *keystore) countUpTo(ctx context.Context, prefix bitstr.Key, limit int) (int, error) {
-	longPrefix := prefix.BitLen() > s.prefixBits
-	dsk := dsKey(prefix, s.prefixBits).String()
+	dsk, longPrefix := s.queryPrefix(prefix)
 	q := query.Query{Prefix: dsk, KeysOnly: true}
 	if limit > 0 && !longPrefix {
 		// Every key under the datastore prefix matches, so the datastore can stop
@@ -403,9 +415,8 @@ func (s *keystore) countUpTo(ctx context.Context, prefix bitstr.Key, limit int) 
 // multihash whose kademlia identifier (bit256.Key) starts with the provided
 // bit-prefix.
 func (s *keystore) containsPrefix(ctx context.Context, prefix bitstr.Key) (bool, error) {
-	dsk := dsKey(prefix, s.prefixBits).String()
+	dsk, longPrefix := s.queryPrefix(prefix)
 	q := query.Query{Prefix: dsk, KeysOnly: true}
-	longPrefix := prefix.BitLen() > s.prefixBits
 	if !longPrefix {
 		// Exact match on hex character, only one possible match
 		q.Limit = 1
